@@ -59,6 +59,8 @@ func (fr *faultRun) issue(kind, timing string) *call {
 	case "note":
 		c.Notify = true
 		c.Outcome = Go(tok, func() (string, error) { return "", cl.Note(ctx, tok) })
+	case "echoNR": // a field that says retry:"false" is an untagged call as far as the property goes
+		c.Outcome = Go(tok, func() (string, error) { return cl.EchoNR(ctx, tok, "") })
 	case "echoR":
 		c.Retry = true
 		c.Outcome = Go(tok, func() (string, error) { return cl.EchoR(ctx, tok, "") })
@@ -88,7 +90,7 @@ func checkValue(c *call, r *core.R) {
 		return
 	}
 	switch c.Kind {
-	case "echo", "bigreq", "echoR":
+	case "echo", "bigreq", "echoR", "echoNR":
 		if c.Val != svc.Reply(c.Tok) {
 			r.Violate("foreign-result", "call %s (%s/%s) returned %q, expected %q", c.Tok, c.Kind, c.Timing, core.Trunc(c.Val, 80), svc.Reply(c.Tok))
 		}
@@ -212,6 +214,13 @@ func runFault(sc core.Scenario, r3, r4 *core.R) {
 	hc := &call{Kind: "echo", Timing: "inflight"}
 	hc.Outcome = Go(held, func() (string, error) { return cl.Echo(context.Background(), held, "") })
 	fr.add(hc)
+	// ... and one through a field whose tag says retry:"false"
+	heldN := Tok("h")
+	env.Svc.Hold(heldN)
+	hn := &call{Kind: "echoNR", Timing: "inflight"}
+	hn.Outcome = Go(heldN, func() (string, error) { return cl.EchoNR(context.Background(), heldN, "") })
+	fr.add(hn)
+	env.Svc.WaitEntered(heldN, core.Grace)
 	// contrast lane: a retry-tagged call in flight when the fault strikes must be re-sent by the library
 	heldR := Tok("h")
 	env.Svc.Hold(heldR)
@@ -359,7 +368,7 @@ func runFault(sc core.Scenario, r3, r4 *core.R) {
 			r4.Violate("resend:"+c.Kind, "library sent %d request frames for untagged call %s (%s/%s)", nf, c.Tok, c.Kind, c.Timing)
 		}
 		gotAnswer := false
-		if c.Err == nil && (c.Kind == "echo" || c.Kind == "big" || c.Kind == "bigreq") {
+		if c.Err == nil && (c.Kind == "echo" || c.Kind == "big" || c.Kind == "bigreq" || c.Kind == "echoNR") {
 			gotAnswer = true
 		}
 		if c.Err != nil && strings.Contains(c.Err.Error(), svc.ErrText(c.Tok)) {
